@@ -157,6 +157,44 @@ pub fn worker_main() {
     }
 }
 
+/// CPU time (user + system) a process has used so far, in milliseconds, from /proc/<pid>/stat.
+/// Deadlines of calls that may not return are measured in CPU time of the child, so that a loaded
+/// machine (the child not being scheduled) is never mistaken for a hang; a generous wall-clock limit
+/// (`WALL_FACTOR` x the CPU limit) remains as a fallback.
+pub fn cpu_ms(pid: u32) -> Option<u64> {
+    let s = std::fs::read_to_string(format!("/proc/{}/stat", pid)).ok()?;
+    let rest = &s[s.rfind(')')? + 1..];
+    let f: Vec<&str> = rest.split_whitespace().collect();
+    // after the command name: state(0) ppid(1) … utime is field 14 of the line = index 11 here, stime 12
+    let ut: u64 = f.get(11)?.parse().ok()?;
+    let st: u64 = f.get(12)?.parse().ok()?;
+    Some((ut + st) * 10)
+}
+pub const WALL_FACTOR: u32 = 40;
+
+/// wait for a line from `rx` until the child `pid` has used `cpu_limit` of CPU time since `cpu0` (or
+/// `WALL_FACTOR` x that much wall-clock time has passed)
+pub fn recv_cpu_deadline<T>(rx: &Receiver<T>, pid: u32, cpu_limit: Duration) -> Result<T, std::sync::mpsc::RecvTimeoutError> {
+    let cpu0 = cpu_ms(pid).unwrap_or(0);
+    let t0 = std::time::Instant::now();
+    loop {
+        match rx.recv_timeout(Duration::from_millis(15)) {
+            Ok(x) => return Ok(x),
+            Err(std::sync::mpsc::RecvTimeoutError::Disconnected) => return Err(std::sync::mpsc::RecvTimeoutError::Disconnected),
+            Err(std::sync::mpsc::RecvTimeoutError::Timeout) => {
+                let used = cpu_ms(pid).map(|c| c.saturating_sub(cpu0));
+                let over_cpu = match used {
+                    Some(u) => u as u128 > cpu_limit.as_millis(),
+                    None => t0.elapsed() > cpu_limit, // no /proc: fall back to wall-clock time
+                };
+                if over_cpu || t0.elapsed() > cpu_limit * WALL_FACTOR {
+                    return Err(std::sync::mpsc::RecvTimeoutError::Timeout);
+                }
+            }
+        }
+    }
+}
+
 pub enum WResult {
     Ok(WOut),
     Panic(String),
@@ -230,8 +268,8 @@ impl Worker {
             return WResult::Hang;
         }
         let got = {
-            let (_, _, rx) = self.child.as_ref().unwrap();
-            rx.recv_timeout(deadline)
+            let (ch, _, rx) = self.child.as_ref().unwrap();
+            recv_cpu_deadline(rx, ch.id(), deadline)
         };
         match got {
             Ok(l) => {
